@@ -80,6 +80,28 @@ func VerifRxWriteRecord(c *Conn, typ uint8, data []byte) error {
 	return err
 }
 
+// VerifRxNextRecord reads exactly one record from the transport with the connection's read
+// state and returns its type and plaintext without dispatching it (used to look at the alert a
+// peer sent back, whatever its level).
+func VerifRxNextRecord(c *Conn) (typ byte, plain []byte, err error) {
+	c.in.Lock()
+	defer c.in.Unlock()
+	if err := c.readFromUntil(c.conn, recordHeaderLen); err != nil {
+		return 0, nil, err
+	}
+	hdr := c.rawInput.Bytes()[:recordHeaderLen]
+	n := int(hdr[3])<<8 | int(hdr[4])
+	if err := c.readFromUntil(c.conn, recordHeaderLen+n); err != nil {
+		return 0, nil, err
+	}
+	record := c.rawInput.Next(recordHeaderLen + n)
+	data, t, err := c.in.decrypt(record)
+	if err != nil {
+		return 0, nil, err
+	}
+	return byte(t), append([]byte(nil), data...), nil
+}
+
 // VerifErrKind classifies an error returned by Read / Write / Close / Handshake:
 // "nil", "eof", "unexpected_eof", "local_alert" / "remote_alert" (with the alert description),
 // "record_header", "closed" (net.ErrClosed), "shutdown", "timeout", "alert" (a bare alert value), "other".
